@@ -671,6 +671,45 @@ func c06GenConfig(r *rand.Rand, t *c06Table, typ string, version string, s *gen.
 			}
 			cfg.IgnoreOnly[id] = antichain(append(cfg.IgnoreOnly[id], pickN(r, paths, 1+r.IntN(2))...))
 		}
+		// keys that overlap: a key standing for several rules (a category, a deprecated ID with several
+		// replacements) next to one of those rules under its own key and with its own paths — the path sets
+		// of the two keys are merged per rule, and must not leak to the key's other rules
+		for _, id := range sortedKeys(cfg.IgnoreOnly) {
+			stands, err := t.expand(typ, []string{id})
+			if err != nil || len(stands) < 2 || r.IntN(2) != 0 {
+				continue
+			}
+			member := sortedKeys(stands)[r.IntN(len(stands))]
+			cfg.IgnoreOnly[member] = antichain(append(cfg.IgnoreOnly[member], pickN(r, paths, 1+r.IntN(2))...))
+			cfg.feature("ignore_only-overlapping-keys")
+		}
+	}
+	if r.IntN(8) == 0 {
+		// designed: every rule selected, a deprecated ID with several replacements and one of the replacements
+		// as keys with different paths
+		var multi []string
+		for _, d := range pools.deprecated {
+			if stands, err := t.expand(typ, []string{d}); err == nil && len(stands) >= 2 {
+				multi = append(multi, d)
+			}
+		}
+		if len(multi) > 0 && len(paths) >= 2 {
+			d := multi[r.IntN(len(multi))]
+			stands, _ := t.expand(typ, []string{d})
+			member := sortedKeys(stands)[r.IntN(len(stands))]
+			pp := pickN(r, paths, 2)
+			if len(pp) == 2 {
+				cfg.Use, cfg.Except = append([]string{}, pools.rules...), nil
+				cfg.IgnoreOnly = map[string][]string{d: {pp[0]}, member: {pp[1]}}
+				cfg.Features = nil
+				cfg.feature("use-all-rules")
+				cfg.feature("ignore_only-deprecated")
+				cfg.feature("ignore_only-overlapping-keys")
+				if len(cfg.Ignore) > 0 {
+					cfg.feature("ignore")
+				}
+			}
+		}
 	}
 	if typ == "lint" {
 		cfg.Opts.AllowCommentIgnores = r.IntN(2) == 0
